@@ -8,7 +8,7 @@ CONSTANTS MaxRest,      \* number of tokens after the first (host) token
 
 (* ---- lemma: for every URL composed from RFC components, Parse gives the components back ---- *)
 UiSet    == {NONE, <<>>, <<"a">>, <<"a", ":", "a">>}
-PortSet  == {NONE, <<>>, <<"80">>, <<"8080">>}
+PortSet  == {NONE, <<>>, <<"80">>, <<"8080">>, <<"80", "80">>}
 PathSet  == {<<>>, <<"/">>, <<"/", "a">>, <<"/", "a", "/", "a">>, <<"/", "a", ":", "@", "a">>, <<"/", "/", "a">>}
 QuerySet == {NONE, <<>>, <<"a">>, <<"a", "=", "a">>, <<"/", "?", "@", ":">>}
 FragSet  == {NONE, <<>>, <<"a">>, <<"/", "?", "a">>}
@@ -17,11 +17,11 @@ ComposeParse == \A c \in Parts : Parse(Compose(c)) = Expected(c)
 \* and what the grammar does not produce is refused: an authority without a host, a second "@" in the userinfo,
 \* a port that is not a number, a "#" inside the fragment
 RefusedSet == { <<"a">>, <<":", "80">>, <<"a", "@", "a", "@", "localhost">>, <<"localhost", ":", "a">>,
-                <<"localhost", "80">>, <<"localhost", ":", "80", ":">>, <<"localhost", "/", "#", "#">>,
+                <<"localhost", "80">>, <<"localhost", ":", "80", ":">>, <<"localhost", ":", "8080", "80">>, <<"localhost", "/", "#", "#">>,
                 <<"localhost", "@">>, <<"/", "localhost">>, <<>> }
 RefusesBad == \A u \in RefusedSet : ~ Parse(u).ok
 \* each deviation is visible somewhere (non-vacuity of the names)
-EachDevMatters == \A d \in AsFound : \E c \in Parts : ParseD(Compose(c), {d}) # Expected(c)
+EachDevMatters == \A d \in AllDevs : \E c \in Parts : ParseD(Compose(c), {d}) # Expected(c)
 
 VARIABLES u, sch
 vars == <<u, sch>>
